@@ -273,6 +273,8 @@ pub struct Env {
     pub violation: Option<(String, String)>,
     /// like `violation`, for classes that do not invalidate the rest of the run
     pub soft: Option<(String, String)>,
+    /// the run judges call-form agreement (C15): steps that embed a one-directional form rule report through `violation`
+    pub forms_oracle: bool,
 }
 
 impl Env {
@@ -288,6 +290,7 @@ impl Env {
             cb_fired: false,
             violation: None,
             soft: None,
+            forms_oracle: false,
         }
     }
     pub fn reset(&mut self) {
@@ -573,6 +576,9 @@ pub fn exec(w: &mut World, op: &Op, env: &mut Env) {
     }
     let name = op.name.as_str();
     let (fam, rest) = name.split_once('.').unwrap_or((name, ""));
+    if crate::exec_conv::handles(rest) {
+        return crate::exec_conv::exec(w, op, fam, rest, env);
+    }
     match fam {
         "u" => crate::exec_int::exec_u(w, op, rest, env),
         "i" => crate::exec_int::exec_i(w, op, rest, env),
